@@ -82,7 +82,25 @@ def find_return(impl, P, start, target_key, target_toks, max_depth=6, max_nodes=
     return dfs(start, [], 1)
 
 
-def search_cycles(impl, P, exprs, depth, budget, rng):
+FAMILY_RBV = 'cycle:ReplaceByVariable-reintroduces-eliminated-variable'
+ELIMINATORS = {'EliminateVariable', 'LetSubstitution', 'SimplifyQuotedSymbols'}
+
+
+def reintroduces(impl, inp, cls, p):
+    """the step p on the input inp is ReplaceByVariable putting in a variable that occurs in inp only where it is
+    declared or bound (another mutator has eliminated it): the call site of the known family of cycles"""
+    if cls != 'ReplaceByVariable' or not isinstance(p, dict) or 'simp' not in p:
+        return False
+    vals = [v for v in p['simp'].substs.values() if v is not None]
+    if len(vals) != 1 or not vals[0].is_leaf():
+        return False
+    name = vals[0].data
+    # occurrences apart from the places where the name is declared or bound
+    impl.smtlib.collect_information(inp)
+    return not any(n.is_leaf() and n.data == name and not impl.smtlib.is_definition_node(n) for n in impl.nodes.dfs(inp))
+
+
+def search_cycles(impl, P, exprs, depth, budget, rng, third=0.15):
     """Bounded search (a search, not a proof) for no-ops and short cycles from exprs. Returns list of findings."""
     findings = []
     k0 = key_of(impl, exprs)
@@ -109,9 +127,9 @@ def search_cycles(impl, P, exprs, depth, budget, rng):
             findings.append(dict(kind=f'{1 + len(back)}-cycle', chain=[cls1] + back, via=impl.render(r1, 'default')[:600]))
     if depth < 2:
         return findings, stats
-    cands = [(c, r) for c, r, _ in lvl1 if r != 'HANG' and c not in SHRINKING and key_of(impl, r) != k0]
+    cands = [(c, r, p_) for c, r, p_ in lvl1 if r != 'HANG' and c not in SHRINKING and key_of(impl, r) != k0]
     rng.shuffle(cands)
-    for cls1, r1 in cands[:budget]:
+    for cls1, r1, p1 in cands[:budget]:
         try:
             r1 = impl.nodes.reduplicate(r1)
             lvl2 = successors(impl, P, r1, skip=SHRINKING)
@@ -124,14 +142,16 @@ def search_cycles(impl, P, exprs, depth, budget, rng):
                 continue
             k2 = key_of(impl, r2)
             if k2 == k0:
-                findings.append(dict(kind='2-cycle', chain=[cls1, cls2], via=impl.render(r1, 'default')[:600]))
-            elif depth >= 3 and k2 != k1 and time.time() - t0 < 20 and rng.random() < 0.15:
+                findings.append(dict(kind='2-cycle', chain=[cls1, cls2], via=impl.render(r1, 'default')[:600],
+                                     reintro=reintroduces(impl, exprs, cls1, p1) or reintroduces(impl, r1, cls2, p2)))
+            elif depth >= 3 and k2 != k1 and time.time() - t0 < 20 and rng.random() < third:
                 try:
                     r2 = impl.nodes.reduplicate(r2)
                     for cls3, r3, p3 in successors(impl, P, r2, skip=SHRINKING):
                         stats['explored'] += 1
                         if r3 != 'HANG' and key_of(impl, r3) == k0:
-                            findings.append(dict(kind='3-cycle', chain=[cls1, cls2, cls3], via=impl.render(r1, 'default')[:400]))
+                            findings.append(dict(kind='3-cycle', chain=[cls1, cls2, cls3], via=impl.render(r1, 'default')[:400],
+                                                 reintro=reintroduces(impl, exprs, cls1, p1) or reintroduces(impl, r1, cls2, p2) or reintroduces(impl, r2, cls3, p3)))
                 except Exception:  # noqa
                     pass
     return findings, stats
@@ -176,6 +196,12 @@ def run(ctx):
                ('corpus', '(set-logic ALL)\n(declare-const a Int)\n(declare-const |a| Int)\n(assert (> |a| 0))\n(check-sat)\n'),
                ('corpus', '(set-logic ALL)\n(declare-const f (_ FloatingPoint 5 11))\n(assert (fp.isNaN (fp (_ bv0 1) (_ bv0 5) (_ bv0 10))))\n(check-sat)\n'),
                ('corpus', '(set-logic ALL)\n(declare-const x Int)\n(declare-const y Int)\n(assert (= x (+ y 1)))\n(check-sat)\n'),
+               # a parallel let whose bound terms mention each other (swap): substituting one must not enable the other for ever
+               ('corpus', '(set-logic ALL)\n(declare-const a Int)\n(declare-const b Int)\n(assert (let ((a b) (b a)) (< b b)))\n(check-sat)\n'),
+               ('corpus', '(set-logic ALL)\n(declare-const p Bool)\n(declare-const q Bool)\n(assert (let ((p q) (q p)) (and q p)))\n(check-sat)\n'),
+               # cycles through three mutators reported by a seeded-change agent (known findings)
+               ('corpus', '(set-logic ALL)\n(declare-const x Int)\n(declare-const y Int)\n(declare-const z Int)\n(assert (= (+ y z) x))\n(check-sat)\n'),
+               ('corpus', '(set-logic ALL)\n(declare-const a Int)\n(declare-const b Int)\n(assert (= (+ a b) (+ a b)))\n(check-sat)\n'),
                # a definition that is not recursive itself but refers to one that is (the recursion check must not loop on it);
                # a parameter named like its function
                ('corpus', '(set-logic ALL)\n(declare-const y Int)\n(define-fun g () Int (+ g 1))\n(define-fun f () Int (+ g 2))\n(assert (> (+ f y) 0))\n(check-sat)\n'),
@@ -186,7 +212,11 @@ def run(ctx):
     for cls, text in inputs:
         exprs = impl.parse(text)
         t0 = time.time()
-        findings, stats = search_cycles(impl, P, exprs, 3 if ctx.thorough else 2, budget, rng)
+        if cls == 'corpus':
+            # hand-written seeds are small: every non-shrinking first step, every second step, every third step
+            findings, stats = search_cycles(impl, P, exprs, 3, 400, rng, third=1.0)
+        else:
+            findings, stats = search_cycles(impl, P, exprs, 3 if ctx.thorough else 2, budget, rng)
         tot['proposals'] += stats['proposals']
         tot['explored'] += stats['explored']
         ctx.case(text, stats['proposals'] >= 10, sample=dict(source=cls, proposals=stats['proposals'], second_level=stats['explored'])
@@ -200,7 +230,7 @@ def run(ctx):
             ctx.violation('impl-violation', input=text, finding=f['kind'], chain=f['chain'], detail=f.get('via') or f.get('node'),
                           observed=f"{f['kind']} by {' -> '.join(f['chain'])}",
                           expected='no proposal leaves the input unchanged, no chain of proposals leads back to an input already visited, every proposal is delivered in bounded time',
-                          finding_key=('cycle:' + '+'.join(sorted(set(f['chain'])))) if 'cycle' in f['kind'] else None,
+                          finding_key=(FAMILY_RBV if f.get('reintro') and ELIMINATORS & set(f['chain']) else 'cycle:' + '+'.join(sorted(set(f['chain'])))) if 'cycle' in f['kind'] else None,
                           how_to_replay='./check C03 --replay <file>')
     # delivery time: terms nested in one operand position, with an innermost operand whose sort is or is not inferable;
     # every filter/mutations call must return within a bound that does not depend exponentially on the depth
@@ -242,10 +272,16 @@ def run(ctx):
     big = ('(set-logic ALL)\n(declare-const b (_ BitVec 1))\n(declare-const i Int)\n'
            f'(assert (= ((_ sign_extend {N}) #b1) ((_ zero_extend {N}) b)))\n(assert (= (_ bv5 {N}) ((_ repeat {N}) b)))\n'
            f'(assert (= ((_ extract {N} 0) b) ((_ rotate_left {N}) b)))\n(assert (> (* i {N}{N}{N}) (+ i 1e{N})))\n'
-           f'(assert (= ((_ int2bv {N}) i) ((_ to_fp {N} {N}) b)))\n(check-sat)\n')
+           f'(assert (= ((_ int2bv {N}) i) ((_ to_fp {N} {N}) b)))\n'
+           f'(assert (= ((_ extract 0 0) (_ bv5 {N})) b))\n(declare-const fl (_ FloatingPoint {N}0 5))\n(assert (fp.isNaN fl))\n(check-sat)\n')
     exprs = impl.parse(big)
     blown = {}
-    for p_ in P.enumerate_proposals(exprs, time_limit=20):
+    for p_ in P.enumerate_proposals(exprs, time_limit=20, mem=True):
+        if p_.get('kind') == 'mem':
+            # transient allocations count too: the proposal may be small although a huge intermediate value was built
+            if p_['peak'] > 1000 * len(big):
+                blown.setdefault(p_['cls'], f"{p_['peak']} bytes were allocated while the proposals for {str(p_['node'])[:60]} were computed")
+            continue
         if 'error' in p_:
             if p_['error'] == 'hang':
                 blown.setdefault(p_['cls'], f"no proposal within 20 s for {str(p_['node'])[:60]}")
@@ -335,6 +371,9 @@ def run(ctx):
             classes_ = sorted(set(display.get(n, n) for n in (chain or names[-3:])))
             keys = ['cycle:' + '+'.join(classes_)]
             known_cycles = [k['key'] for k in ctx.known if k['key'].startswith('cycle:')]
+            if keys[0] not in known_cycles and 'ReplaceByVariable' in classes_ and ELIMINATORS & set(classes_) and FAMILY_RBV in known_cycles:
+                # the family of cycles in which ReplaceByVariable brings an eliminated variable back (any steps in between)
+                keys = [FAMILY_RBV]
             if keys[0] not in known_cycles:
                 # a closed walk may interleave several independent known cycles (at different positions of the input): it is
                 # explained by them if their mutator sets together are exactly the mutators of the walk
